@@ -259,6 +259,14 @@ def quantified_shapes():
            # the body of a quantifier is also used outside it (shared node)
            ("And", ("Not", ("Or", a, b)), ("exists", qa, ("Or", a, b))), ("Iff", ("forall", qa, ("Or", a, b)), ("Or", a, b)),
            ("Implies", ("Or", a, b), ("forall", qa, ("Or", a, b))), ("Or", ("exists", qa, ("And", a, c)), ("Not", ("And", a, c)), ("forall", qb, ("And", a, c)))]
+    # array values whose stored entries are terms: a free / bound variable that occurs only inside an entry
+    one = ("lit", 1, INT)
+
+    def av(entry, default=("lit", False, BOOL)):
+        return ("Select", ("Array", ("type", INT), default, ("dict", (one, entry))), one)
+    out += [("And", av(a), ("exists", qa, ("Or", a, b))), ("Or", ("forall", qa, ("Implies", a, b)), av(("And", a, c))),
+            ("exists", qb, ("And", ("Iff", c, b), av(("Ite", b, a, c)))), ("forall", qb, ("Or", av(b), ("And", a, ("Not", b)))),
+            ("forall", qa, ("exists", qb, ("Iff", av(("Or", a, b)), c))), ("And", av(a, default=b), ("exists", qb, ("Iff", a, b)))]
     return [Shape(t) for t in out]
 
 
